@@ -19,6 +19,7 @@ DRIVERS = {
     'fragment': 'src/common/fragment.rs',
 }
 _built = {}
+_EXES = {}
 
 
 def _env():
@@ -65,16 +66,32 @@ def build_shadow(log=None):
                 continue
             with open(p, 'a') as f:
                 f.write('\n#[cfg(test)]\n#[path = "%s"]\nmod verif_replay_%s;\n' % (os.path.join(harness.VERIF, 'replay', 'drivers', name + '.rs'), name))
-        r = subprocess.run(['cargo', 'test', '--offline', '--no-run', '--bin', 'redproxy-rs', '--message-format=json'],
+        # the milu driver needs serde_json (already in Cargo.lock through the bin crate): dev-dependency in the SHADOW copy only
+        mt = os.path.join(SHADOW, 'milu', 'Cargo.toml')
+        if os.path.exists(mt):
+            txt = open(mt).read()
+            if 'serde_json' not in txt:
+                if '[dev-dependencies]' in txt:
+                    txt = txt.replace('[dev-dependencies]', '[dev-dependencies]\nserde_json = "1.0"', 1)
+                else:
+                    txt += '\n[dev-dependencies]\nserde_json = "1.0"\n'
+                open(mt, 'w').write(txt)
+        r = subprocess.run(['cargo', 'test', '--offline', '--no-run', '--workspace', '--message-format=json'],
                            cwd=SHADOW, env=_env(), stdout=subprocess.PIPE, stderr=subprocess.PIPE)
         exe = None
+        exes = {}
         for ln in r.stdout.decode('utf-8', 'replace').splitlines():
             try:
                 j = json.loads(ln)
             except Exception:
                 continue
             if j.get('reason') == 'compiler-artifact' and j.get('executable') and j.get('profile', {}).get('test'):
-                exe = j['executable']
+                nm = j.get('target', {}).get('name', '')
+                exes[nm] = j['executable']
+                if nm == 'redproxy-rs':
+                    exe = j['executable']
+        global _EXES
+        _EXES = exes
         ok = r.returncode == 0 and exe is not None
         if not ok:
             with open(os.path.join(harness.WORK, 'shadow-build.err'), 'wb') as f:
@@ -98,6 +115,9 @@ def run_case(driver, case, timeout=120):
     json.dump(case, open(p, 'w'))
     env = dict(os.environ)
     env['VERIF_REPLAY'] = p
+    rel = discover_drivers().get(driver) or ''
+    if rel.startswith('milu/') and _EXES.get('milu'):
+        exe = _EXES['milu']
     try:
         r = subprocess.run([exe, 'verif_replay_%s::verif_replay' % driver, '--nocapture', '--test-threads', '1'],
                            cwd=SHADOW, env=env, stdout=subprocess.PIPE, stderr=subprocess.PIPE, timeout=timeout)
